@@ -452,7 +452,8 @@ public:
    /// Is \p k a valid DataKey of an element in DataSet?
    bool has(const DataKey& k) const
    {
-      return theitem[k.idx].info >= 0;
+      // keys beyond size() belong to removed elements (their slots are not marked by clear() or may lie outside the array)
+      return k.idx >= 0 && k.idx < size() && theitem[k.idx].info >= 0;
    }
 
    /// Is \p n a valid number of an element in DataSet?
